@@ -400,12 +400,14 @@ func runC20(cx *Ctx, r *Report) {
 	r.requireCount("desc-equal", 45)
 	r.requireCount("msg-registered", 60)
 	r.requireCount("signer", 60)
+	r.requireCount("signer-legacy-agrees", 60)
 	r.requireCount("gogo-tags", 200)
 }
 
 // ------------------------------------------------------------------ registration
 
 func c20Registration(cx *Ctx, r *Report, gm map[string]*genFile, svcs map[string]*protoService, msgs map[string]*protoMessage) {
+	var legacy map[string]map[string][]string
 	repo := cx.Repo
 	rel := func(p string) string { return strings.TrimPrefix(p, repo+"/") }
 	// index: go package dir -> registered msg type names, RegisterMsgServiceDesc args
@@ -517,8 +519,84 @@ func c20Registration(cx *Ctx, r *Report, gm map[string]*genFile, svcs map[string
 			}
 			ok, why := signerOK(m, msgs, 0)
 			r.check(ok, "signer", full, "proto/"+strings.ReplaceAll(pkgOf, ".", "/"), "cosmos.msg.v1.signer "+why, "signer option problem: "+why)
+			// the declared signer is the account the hand-written legacy GetSigners() returns:
+			// an option naming another string field (a recipient, an EVM address) still "exists"
+			// but makes descriptor-based signer resolution disagree with the module's own
+			if legacy == nil {
+				legacy = map[string]map[string][]string{}
+			}
+			if legacy[dir] == nil {
+				legacy[dir] = legacySignerFields(dir)
+			}
+			if got, has := legacy[dir][short]; has {
+				var want []string
+				for _, sname := range m.signers {
+					want = append(want, goCamel(sname))
+				}
+				sort.Strings(want)
+				same := len(got) == len(want)
+				for i := range got {
+					if same && got[i] != want[i] {
+						same = false
+					}
+				}
+				r.check(same, "signer-legacy-agrees", full, rel(dir), "the signer option names the field(s) that GetSigners() reads ("+strings.Join(got, ", ")+")", fmt.Sprintf("cosmos.msg.v1.signer of %s names %v but the module's GetSigners() derives the signer from %v: the two ways of finding the signer of this message disagree", full, want, got))
+			}
 		}
 	}
+}
+
+// legacySignerFields: for every type with a hand-written GetSigners method in
+// dir, the receiver fields (first level) the method reads.
+func legacySignerFields(dir string) map[string][]string {
+	out := map[string][]string{}
+	fset := token.NewFileSet()
+	ents, _ := os.ReadDir(dir)
+	for _, e := range ents {
+		n := e.Name()
+		if e.IsDir() || !strings.HasSuffix(n, ".go") || strings.HasSuffix(n, "_test.go") || strings.HasSuffix(n, ".pb.go") || strings.HasSuffix(n, ".pb.gw.go") {
+			continue
+		}
+		f, err := parser.ParseFile(fset, filepath.Join(dir, n), nil, 0)
+		if err != nil {
+			continue
+		}
+		for _, d := range f.Decls {
+			fd, ok := d.(*ast.FuncDecl)
+			if !ok || fd.Name.Name != "GetSigners" || fd.Recv == nil || len(fd.Recv.List) != 1 || fd.Body == nil || len(fd.Recv.List[0].Names) != 1 {
+				continue
+			}
+			recv := fd.Recv.List[0].Names[0].Name
+			var tname string
+			switch t := fd.Recv.List[0].Type.(type) {
+			case *ast.StarExpr:
+				if id, ok := t.X.(*ast.Ident); ok {
+					tname = id.Name
+				}
+			case *ast.Ident:
+				tname = t.Name
+			}
+			if tname == "" {
+				continue
+			}
+			set := map[string]bool{}
+			ast.Inspect(fd.Body, func(nd ast.Node) bool {
+				if se, ok := nd.(*ast.SelectorExpr); ok {
+					if id, ok := se.X.(*ast.Ident); ok && id.Name == recv {
+						set[se.Sel.Name] = true
+					}
+				}
+				return true
+			})
+			var fs []string
+			for k := range set {
+				fs = append(fs, k)
+			}
+			sort.Strings(fs)
+			out[tname] = fs
+		}
+	}
+	return out
 }
 
 // descHasRPC: the embedded descriptor of holder has service svc with rpc whose
